@@ -319,6 +319,9 @@ class Prover:
                 if last == 'len' and not proj:
                     n = _array_len(t['args'][0]['place'].get('ty')) if t['args'] and t['args'][0].get('k') in ('copy', 'move') else None
                     r = (n, n) if n is not None else (0, SLICE_MAX)
+                    if n is None and depth < 3 and t['args'] and p.startswith('core::slice::'):
+                        # the slice is a view of a fixed-size array (`&arr as &[u8]`), a chunk or one half of a split
+                        r = self.len_range(t['args'][0], blk) or r
                 elif last in ('position', 'rposition') and proj and isinstance(proj[-1], dict) and proj[-1].get('n') == '0':
                     r = (0, SLICE_MAX - 1)
                 elif last == 'count' and not proj:
@@ -366,6 +369,26 @@ class Prover:
         return None
 
     # ---- lengths ---------------------------------------------------------------------------------------
+    def _split_part_len(self, rp, block, depth=0):
+        """length of one half of `x.split_at(mid)` / `split_at_mut(mid)`: .0 has mid elements, .1 has len(x) - mid"""
+        if rp is None or depth > 2 or len(rp['p']) != 1 or not (isinstance(rp['p'][0], dict) and rp['p'][0].get('f') in (0, 1)):
+            return None
+        ds = _defs(self.body, rp['l'])
+        if len(ds) != 1 or ds[0][0] != 'call':
+            return None
+        t = ds[0][1]
+        c = callee(t)
+        pth = (c.get('resolved') or c['path']) if c else ''
+        if pth.split('::')[-1] not in ('split_at', 'split_at_mut') or len(t['args']) != 2 or not pth.startswith('core::slice::'):
+            return None
+        mid = self.range_of(t['args'][1], 0, ds[0][2])
+        whole = self.len_range(t['args'][0], ds[0][2])
+        if mid is None or whole is None:
+            return None
+        if rp['p'][0]['f'] == 0:
+            return (mid[0], min(mid[1], whole[1]))
+        return (max(0, whole[0] - mid[1]), max(0, whole[1] - mid[0]))
+
     def len_range(self, op, block):
         """interval of the length of the slice / array an operand denotes, refined by guards on `x.len()`"""
         n = _array_len((op.get('place') or {}).get('ty'))
@@ -376,6 +399,9 @@ class Prover:
         if n is not None:
             return (n, n)
         rng = (0, SLICE_MAX)
+        sp = self._split_part_len(rp, block)
+        if sp is not None:
+            return sp
         ck = self._chunk_len(op)
         if ck is not None:
             rng = (max(rng[0], ck[0]), min(rng[1], ck[1]))
@@ -464,6 +490,11 @@ def prove_site(body, block, term):
                 hi = pr.range_of(vals['end'], 0, block) if 'end' in vals else (n[0], n[0])
                 if lo is not None and hi is not None and hi[1] <= n[0] and lo[1] <= (hi[0] if 'end' in vals else n[0]):
                     return 'range %s..%s within a length >= %d' % (lo[1], hi[1], n[0])
+        if last in ('copy_from_slice', 'clone_from_slice') and len(term['args']) == 2 and p.startswith('core::slice::'):
+            # panics unless both slices have the same length
+            a, b = pr.len_range(term['args'][0], block), pr.len_range(term['args'][1], block)
+            if a is not None and b is not None and a[0] == a[1] == b[0] == b[1]:
+                return 'both slices have exactly %d elements' % a[0]
         if last == 'pow' and len(term['args']) == 2:
             base, e = pr.range_of(term['args'][0], 0, block), pr.range_of(term['args'][1], 0, block)
             ty = (term['dest'] or {}).get('ty')
